@@ -293,6 +293,14 @@ func (br *boundsRun) runB1(rule string) {
 		for _, n := range br.needsOf(fn) {
 			key := ord.next(fn, n.kind)
 			ok, why := br.discharge(fn, n.goal, n.in.Block(), 0)
+			if !ok && !br.onWireMemory(fn, n.in) {
+				// private memory (a copy of the frame): an out-of-range access cannot read bytes that have not
+				// arrived; it panics, which is contained when a deferred recover dominates it
+				if prot, pw := br.protectedAt(n.in, 0); prot {
+					c.Pass(rule, key, nearestPos(n.in), n.desc+" — not proven, but on a private copy and contained by "+pw)
+					continue
+				}
+			}
 			if ok {
 				c.Pass(rule, key, nearestPos(n.in), n.desc+" — "+why)
 			} else {
@@ -354,7 +362,55 @@ func isNilNilReturn(in ssa.Instruction) bool {
 	if !ok || len(ret.Results) != 2 {
 		return false
 	}
-	return isNilConst(ret.Results[0]) && isNilConst(ret.Results[1])
+	if isNilConst(ret.Results[0]) && isNilConst(ret.Results[1]) {
+		return true
+	}
+	// results spilled to locals (function with defer): look at the stores preceding the return in its block
+	n := 0
+	for i, r := range ret.Results {
+		u, ok := r.(*ssa.UnOp)
+		if !ok {
+			return false
+		}
+		al, ok := localAlloc(u)
+		if !ok {
+			return false
+		}
+		var last *ssa.Store
+		for _, x := range ret.Block().Instrs {
+			if s, ok := x.(*ssa.Store); ok && s.Addr == ssa.Value(al) {
+				last = s
+			}
+		}
+		_ = i
+		if last != nil && isNilConst(last.Val) {
+			n++
+		}
+	}
+	return n == 2
+}
+
+// onWireMemory: the accessed slice derives (by slicing only) from the wire buffer's Bytes() or a []byte parameter.
+func (br *boundsRun) onWireMemory(fn *ssa.Function, in ssa.Instruction) bool {
+	ba := br.ba(fn)
+	var base ssa.Value
+	switch x := in.(type) {
+	case *ssa.IndexAddr:
+		base = x.X
+	case *ssa.Index:
+		base = x.X
+	case *ssa.Slice:
+		base = x.X
+	case *ssa.Call:
+		if a := argsOf(x.Common()); len(a) > 0 {
+			base = a[0]
+		}
+	}
+	if base == nil {
+		return true
+	}
+	_, _, ok := ba.sliceOrigin(base)
+	return ok
 }
 
 func (br *boundsRun) runB2(decodes []*ssa.Function) {
@@ -711,6 +767,8 @@ func runC07Dispatch(c *Ctx) {
 		}) == nil
 	// paths from Decode back to Decode that avoid handleFrame exist only via frame==nil (which returns). So none expected.
 	c.Check("C07.B2d", fk+":no-frame-skipped", d.Pos(), noSkip, "every loop iteration that continues passes handleFrame", "the loop can go around without handing the decoded frame to handleFrame (a frame would be dropped)")
+	loopsOn := existsPath(fn, hf[0].Instr, isReturn, func(in ssa.Instruction) bool { return in == d }) == nil
+	c.Check("C07.B2d", fk+":continues-after-frame", hf[0].Instr.Pos(), loopsOn, "after handleFrame the loop always goes on to decode the rest of the buffer", "Dispatch can return right after handling a frame: further complete frames already in the buffer stay undecoded until more bytes arrive")
 	nextOK := existsPath(fn, hf[0].Instr, func(in ssa.Instruction) bool { return in == d }, func(in ssa.Instruction) bool { return in == nx[0].Instr }) == nil
 	c.Check("C07.B2d", fk+":next-context", nx[0].Instr.Pos(), nextOK, "ctxManager.Next() between frames", "the per-stream context is not advanced between two frames")
 	// exits: returns are guarded by Len()==0, frame==nil&&err==nil, err!=nil, or type mismatch
